@@ -7,7 +7,7 @@ Repo-specific facts built in (and validated against the source on every run by `
   * ``raise``                      -> only raises
 """
 import ast
-from typing import Dict, List, Optional, Set, Tuple, Iterable
+from typing import Dict, FrozenSet, List, Optional, Set, Tuple, Iterable
 
 from .model import AnalysisError, FuncNode, call_attr, kwarg, unparse, walk_shallow
 
@@ -795,12 +795,289 @@ class Facts:
         return any(pred(a, p) for a, p in self.atoms_at(n))
 
 
+PURE_PREDICATES = {"unprovided", "isinstance", "issubclass", "hasattr", "callable", "len", "bool", "type", "getattr",
+                   "is_required", "is_no_input", "is_no_output", "always_no_input", "multi", "str", "int"}
+
+
+def _pure_atom(a) -> bool:
+    """an atom whose truth cannot change while the names in it keep their bindings (no call other than the repository's
+    query predicates): only such atoms are used to recognise two tests as the same test"""
+    for x in ast.walk(a):
+        if isinstance(x, ast.Call):
+            f = x.func
+            name = f.id if isinstance(f, ast.Name) else f.attr if isinstance(f, ast.Attribute) else None
+            if name not in PURE_PREDICATES:
+                return False
+        elif isinstance(x, (ast.Await, ast.Yield, ast.YieldFrom, ast.NamedExpr)):
+            return False
+    return True
+
+
+class PathFacts:
+    """Path-sensitive branch facts: for a node, a bounded set of *disjuncts*; every execution reaching the node satisfies
+    all atoms of at least one disjunct.  Forward data-flow over the statement graph:
+
+      * a branch node adds the atoms of its test under its polarity (`decompose`), then closes the disjunct under unit
+        resolution (`a or b` known true with `a` known false gives `b`; `a and b` known false with `a` true gives not b);
+      * a node that rebinds a name drops every atom mentioning it;
+      * a disjunct holding an atom with both polarities is infeasible and dropped - only for pure atoms (`_pure_atom`);
+      * joins take the union of the disjuncts; beyond BOUND disjuncts the node is collapsed for good to the single
+        disjunct of the atoms common to all (this also bounds the fix-point iteration over loops).
+    """
+    BOUND = 48
+
+    def __init__(self, cfg: CFG, rd: "ReachingDefs", want=None):
+        self.cfg = cfg
+        self.rd = rd
+        # Which atoms are tracked: those a rule asks for (`want(text)`), and those tested by more than one branch of the
+        # function (correlated tests).  Everything else is dropped when a branch is entered: it could only multiply the
+        # disjuncts without ever deciding a later test.
+        self.want = want
+        counts: Dict[str, int] = {}
+        for n in cfg.nodes:
+            if n.kind == "branch" and not n.is_for and n.test is not None and n.polarity is True:
+                for a, _p in decompose(n.test, True) + decompose(n.test, False):
+                    for sub in self._leaves(a):
+                        t = unparse(sub)
+                        counts[t] = counts.get(t, 0) + 1
+        self.correlated = {t for t, c in counts.items() if c >= 2}
+        self.atom_ast: Dict[str, ast.AST] = {}
+        self.atom_names: Dict[str, Set[str]] = {}
+        self.IN: Dict[Node, Optional[FrozenSet]] = {}
+        self.OUT: Dict[Node, Optional[FrozenSet]] = {}
+        self.collapsed: Set[Node] = set()
+        self._solve()
+
+    # -- atoms ----
+    @staticmethod
+    def _leaves(a):
+        if isinstance(a, ast.UnaryOp) and isinstance(a.op, ast.Not):
+            yield from PathFacts._leaves(a.operand)
+        elif isinstance(a, ast.BoolOp):
+            for v in a.values:
+                yield from PathFacts._leaves(v)
+        else:
+            yield a
+
+    def _tracked(self, a) -> bool:
+        for sub in self._leaves(a):
+            t = unparse(sub)
+            if t in self.correlated or (self.want is not None and self.want(t)):
+                return True
+        return False
+
+    def _key(self, a) -> str:
+        t = unparse(a)
+        if t not in self.atom_ast:
+            self.atom_ast[t] = a
+            self.atom_names[t] = {x.id for x in ast.walk(a) if isinstance(x, ast.Name)}
+        return t
+
+    def _close(self, d: Dict[str, bool]) -> Optional[Dict[str, bool]]:
+        """unit resolution over the compound atoms of a disjunct; None when contradictory"""
+        changed = True
+        while changed:
+            changed = False
+            for t, pol in list(d.items()):
+                a = self.atom_ast[t]
+                if isinstance(a, ast.BoolOp):
+                    is_or = isinstance(a.op, ast.Or)
+                    if pol != is_or:
+                        continue            # (a or b)=False / (a and b)=True were decomposed already
+                    # (a or b)=True : operands known false are removed; one left -> it is true
+                    # (a and b)=False: operands known true are removed; one left -> it is false
+                    rest = []
+                    sat = False
+                    for v in a.values:
+                        parts = decompose(v, is_or)        # what "v is true" (or) / "v is ... " means as atoms
+                        # value of operand v under d: known if single atom
+                        if len(parts) == 1:
+                            k = self._key(parts[0][0])
+                            want = parts[0][1]
+                            if k in d:
+                                if d[k] == want:
+                                    sat = True if is_or else sat
+                                    if not is_or:
+                                        continue    # operand true: removed from the conjunction
+                                    break
+                                else:
+                                    if is_or:
+                                        continue    # operand false: removed from the disjunction
+                                    sat = True      # operand false: conjunction false is explained
+                                    break
+                        rest.append(v)
+                    if sat:
+                        continue
+                    if len(rest) == 1:
+                        for at, p2 in decompose(rest[0], is_or):
+                            k = self._key(at)
+                            if k in d:
+                                if d[k] != p2 and _pure_atom(at):
+                                    return None
+                            else:
+                                d[k] = p2
+                                changed = True
+                    elif not rest and all(_pure_atom(v) for v in a.values):
+                        return None
+        return d
+
+    def _add(self, disj: FrozenSet, atoms) -> Optional[FrozenSet]:
+        d = dict(disj)
+        for a, pol in atoms:
+            if not self._tracked(a):
+                continue
+            k = self._key(a)
+            if k in d and d[k] != pol:
+                if _pure_atom(a):
+                    return None
+                d[k] = pol
+            else:
+                d[k] = pol
+        d = self._close(d)
+        if d is None:
+            return None
+        return frozenset(d.items())
+
+    def _kill(self, state: FrozenSet, names) -> FrozenSet:
+        names = set(names)
+        out = set()
+        for disj in state:
+            out.add(frozenset((t, p) for t, p in disj if not (self.atom_names[t] & names)))
+        return frozenset(out)
+
+    def _collapse(self, state: FrozenSet) -> FrozenSet:
+        it = iter(state)
+        common = set(next(it))
+        for d in it:
+            common &= set(d)
+        return frozenset([frozenset(common)])
+
+    def _solve(self):
+        cfg = self.cfg
+        empty = frozenset([frozenset()])
+        self.OUT[cfg.entry] = empty
+        self.IN[cfg.entry] = empty
+        # reverse post-order priorities: a node is revisited only after its (forward) predecessors settled
+        order: Dict[Node, int] = {}
+        seen = set()
+        stack = [(cfg.entry, iter([s for s, _k in cfg.entry.succ]))]
+        seen.add(cfg.entry)
+        post = []
+        while stack:
+            node, it = stack[-1]
+            for s in it:
+                if s not in seen:
+                    seen.add(s)
+                    stack.append((s, iter([x for x, _k in s.succ])))
+                    break
+            else:
+                post.append(node)
+                stack.pop()
+        for i, node in enumerate(reversed(post)):
+            order[node] = i
+        import heapq
+        work = []
+        inq = set()
+
+        def push(x):
+            if x not in inq:
+                inq.add(x)
+                heapq.heappush(work, (order.get(x, 1 << 30), x.id, x))
+        for s0, _k in cfg.entry.succ:
+            push(s0)
+        steps = 0
+        limit = 200 * max(1, len(cfg.nodes))
+        self.steps = 0
+        while work:
+            steps += 1
+            self.steps = steps
+            n = heapq.heappop(work)[2]
+            inq.discard(n)
+            if steps > limit:
+                # give up on precision everywhere that is still moving
+                self.collapsed.update(cfg.nodes)
+            acc = set()
+            seen_pred = False
+            for p, k in n.pred:
+                src = self.OUT.get(p) if (k == N or p is cfg.entry) else self.IN.get(p)
+                if src is None:
+                    continue
+                seen_pred = True
+                if k != N and p is not cfg.entry:
+                    # the statement raised: its own bindings may or may not have happened
+                    src = self._kill(src, self.rd.gen.get(p) or ())
+                acc |= src
+            if not seen_pred:
+                continue
+            new_in = frozenset(acc)
+            if n in self.collapsed or len(new_in) > self.BOUND:
+                self.collapsed.add(n)
+                new_in = self._collapse(new_in) if new_in else new_in
+                old = self.IN.get(n)
+                if old:
+                    new_in = self._collapse(new_in | old)
+            if n.kind == "branch" and not n.is_for and n.test is not None:
+                atoms = decompose(n.test, n.polarity)
+                outs = set()
+                for disj in new_in:
+                    r = self._add(disj, atoms)
+                    if r is not None:
+                        outs.add(r)
+                new_out = frozenset(outs)
+            else:
+                g = self.rd.gen.get(n)
+                new_out = self._kill(new_in, g) if g else new_in
+            in_changed = new_in != self.IN.get(n)
+            out_changed = new_out != self.OUT.get(n)
+            if in_changed or out_changed:
+                self.IN[n] = new_in
+                self.OUT[n] = new_out
+                for s, k in n.succ:
+                    if (k == N and out_changed) or (k != N and in_changed) or self.IN.get(s) is None:
+                        push(s)
+
+    # -- queries ----
+    def disjuncts_at(self, n: Node) -> List[Dict[str, bool]]:
+        """one dict (atom text -> polarity) per class of paths reaching n; [] when n is unreachable"""
+        st = self.IN.get(n)
+        if st is None:
+            return []
+        return [dict(d) for d in st]
+
+    def every_path(self, n: Node, pred) -> bool:
+        """pred(dict atom text -> polarity, atom_ast) holds for every disjunct of n (vacuously for unreachable nodes)"""
+        return all(pred(d) for d in self.disjuncts_at(n))
+
+    def must(self, n: Node) -> Dict[str, bool]:
+        ds = self.disjuncts_at(n)
+        if not ds:
+            return {}
+        common = set(ds[0].items())
+        for d in ds[1:]:
+            common &= set(d.items())
+        return dict(common)
+
+
 class FuncAnalysis:
     def __init__(self, finfo):
         self.f = finfo
         self.cfg = CFG(finfo.node)
         self.rd = ReachingDefs(self.cfg, finfo.params)
         self.facts = Facts(self.cfg, self.rd)
+        self._paths = {}
+
+    @property
+    def paths(self) -> "PathFacts":
+        return self.paths_for(None)
+
+    def paths_for(self, words) -> "PathFacts":
+        """path-sensitive facts tracking the correlated tests of the function and every atom whose text contains one of
+        `words` (a tuple of substrings)"""
+        key = tuple(sorted(words)) if words else None
+        if key not in self._paths:
+            want = (lambda t, ws=key: any(w in t for w in ws)) if key else None
+            self._paths[key] = PathFacts(self.cfg, self.rd, want)
+        return self._paths[key]
 
     def nodes_with_ast(self, pred) -> List[Node]:
         return [n for n in self.cfg.nodes if n.ast is not None and pred(n)]
